@@ -1769,3 +1769,26 @@ Proof. split; reflexivity. Qed.
 Example overflow_is_reachable_in_the_model :
   run 2 [ONewData TNumber 1; OClone 0; OClone 0] init = Overflow.
 Proof. reflexivity. Qed.
+
+(* ------------------------------------------------------------------ the statements of Props/C18.v *)
+
+Theorem rc_protocol_safe : forall ops,
+  match run MAX_REF_COUNT ops init with
+  | Ok (_, st) => rc_inv st /\ thunk_tag_inv st
+  | Err _ => False
+  | Overflow => True
+  end.
+Proof.
+  intros ops. pose proof (@run_safe MAX_REF_COUNT ops init sinv_init) as S.
+  destruct (run MAX_REF_COUNT ops init) as [[outs st]| |]; auto. apply sinv_nil_iff. exact S.
+Qed.
+
+Theorem thunk_tag_decode : forall ops outs st v,
+  run MAX_REF_COUNT ops init = Ok (outs, st) -> In (KThunk, v) (all_handles st) ->
+  exists b, h_thunk_data (KThunk, v) (heap st) = Ok (b, heap st) /\ b_tag b = TThunk.
+Proof.
+  intros ops outs st v Hrun HI. pose proof (@run_safe MAX_REF_COUNT ops init sinv_init) as S.
+  rewrite Hrun in S. unfold sinv in S.
+  apply (@thunk_data_spec (KThunk, v) (root_vals (roots st) ++ []) (heap st) S); [|reflexivity].
+  rewrite app_nil_r. exact HI.
+Qed.
